@@ -35,13 +35,23 @@ Section P.
       first [ eapply fetch_net_integrity; eassumption | inv E; apply str_eqb_eq; assumption ].
   Qed.
 
-  Definition hash_ok (h : str) (c : cache) : Prop := exists e, c = Some e /\ H (c_body e) = h.
+  Definition hash_ok (h : str) (c : cache) : Prop :=
+    exists e, c = Some e /\ readable e = true /\ H (c_body e) = h.
+
+  Definition text_entry (now : N) (b : str) : centry := {| c_body := b; c_mtime := now; c_kind := EText |}.
+
+  Lemma write_cache_cases : forall now c b,
+    write_cache now c b = c \/ write_cache now c b = Some (text_entry now b).
+  Proof.
+    intros now c b. unfold write_cache, text_entry. destruct c as [e|]; [destruct (is_dir e)|]; auto.
+  Qed.
 
   Lemma fetch_net_never_caches_mismatch : forall now c h srv o c' n,
     fetch_net H now c (Some h) srv = (o, c', n) -> c' = c \/ hash_ok h c'.
   Proof.
-    unfold fetch_net, write_cache, hash_ok. intros now c h srv o c' n. crush_fetch; intros E; inv E; auto.
-    right. eexists. split; [reflexivity|]. cbn. apply str_eqb_eq. assumption.
+    unfold fetch_net, hash_ok. intros now c h srv o c' n. crush_fetch; intros E; inv E; auto.
+    destruct (write_cache_cases now c b) as [->| ->]; auto.
+    right. eexists. split; [reflexivity|]. cbn. split; [reflexivity|]. apply str_eqb_eq. assumption.
   Qed.
 
   Lemma never_caches_mismatch : forall p now c h srv o c' n,
@@ -53,11 +63,23 @@ Section P.
 
   Lemma offline_never_fetches : forall now c ex srv o c' n,
     fetch H Offline now c ex srv = (o, c', n) ->
-    n = 0 /\ c' = c /\ (c = None -> o = OMiss).
+    n = 0 /\ c' = c /\ (c = None -> o = OMiss) /\
+    (forall e, c = Some e -> readable e = false -> o = OMiss).
   Proof.
-    unfold fetch, read_cache. intros now c ex srv o c' n. cbn [policy_eqb].
-    destruct c as [e|]; destruct ex as [h|]; crush_fetch; intros E; inv E;
-      repeat split; auto; intros; discriminate.
+    unfold fetch, read_cache, read_entry. intros now c ex srv o c' n. cbn [policy_eqb].
+    destruct c as [e|]; [destruct (readable e) eqn:Hr|]; destruct ex as [h|]; crush_fetch; intros E; inv E;
+      repeat split; auto; intros; try discriminate; congruence.
+  Qed.
+
+  (* an entry that exists but cannot be read (bytes that are not UTF-8, a directory) is a cache
+     miss under every policy: offline fails without a request, the others go to the network *)
+  Lemma unreadable_is_miss : forall now e ex srv, readable e = false ->
+    fetch H Offline now (Some e) ex srv = (OMiss, Some e, 0) /\
+    fetch H Normal now (Some e) ex srv = fetch_net H now (Some e) ex srv /\
+    fetch H Refresh now (Some e) ex srv = fetch_net H now (Some e) ex srv.
+  Proof.
+    intros now e ex srv Hr. unfold fetch, read_cache, read_entry. rewrite Hr. cbn [policy_eqb].
+    repeat split; destruct (within_ttl now e); reflexivity.
   Qed.
 
   Lemma refresh_is_net : forall now c ex srv,
@@ -77,15 +99,15 @@ Section P.
   Lemma normal_respects_ttl : forall now e ex srv,
     (within_ttl now e = false ->
        fetch H Normal now (Some e) ex srv = fetch_net H now (Some e) ex srv) /\
-    (within_ttl now e = true -> ex = None ->
+    (within_ttl now e = true -> readable e = true -> ex = None ->
        fetch H Normal now (Some e) ex srv = (OContent (c_body e), Some e, 0)) /\
-    (within_ttl now e = true -> ex = Some (H (c_body e)) ->
+    (within_ttl now e = true -> readable e = true -> ex = Some (H (c_body e)) ->
        fetch H Normal now (Some e) ex srv = (OContent (c_body e), Some e, 0)).
   Proof.
-    intros now e ex srv. unfold fetch, read_cache. repeat split; intros Hw.
+    intros now e ex srv. unfold fetch, read_cache, read_entry. repeat split; intros Hw.
     - rewrite Hw. reflexivity.
-    - intros ->. rewrite Hw. reflexivity.
-    - intros ->. rewrite Hw. rewrite str_eqb_refl. reflexivity.
+    - intros Hr ->. rewrite Hw, Hr. reflexivity.
+    - intros Hr ->. rewrite Hw, Hr. rewrite str_eqb_refl. reflexivity.
   Qed.
 
   Lemma fetch_net_failed_leaves_cache : forall now c ex srv o c' n,
@@ -122,52 +144,63 @@ Section P.
         eapply never_caches_mismatch. eassumption.
   Qed.
 
-  (* what may legitimately be trusted: the body of the initial entry, or a body some server
-     answered in this history *)
+  (* what may legitimately be trusted: the body of the initial entry when it is a text file, or a
+     body some server answered in this history *)
   Definition served (c0 : cache) (steps : list step) (s : str) : Prop :=
-    (exists e, c0 = Some e /\ c_body e = s) \/ (exists st, In st steps /\ st_server st = SBody s).
+    (exists e, c0 = Some e /\ readable e = true /\ c_body e = s) \/
+    (exists st, In st steps /\ st_server st = SBody s).
 
   Lemma fetch_net_shape : forall now c ex srv o c' n,
     fetch_net H now c ex srv = (o, c', n) ->
     (forall s, o = OContent s -> srv = SBody s) /\
-    (c' = c \/ exists b, srv = SBody b /\ c' = write_cache now b).
+    (c' = c \/ exists b, srv = SBody b /\ c' = Some (text_entry now b)).
   Proof.
     unfold fetch_net. intros now c ex srv o c' n. crush_fetch; intros E; inv E; split; auto;
       try (intros s0 E0; inv E0; reflexivity); try (intros s0 E0; discriminate);
-      right; eexists; split; reflexivity.
+      (destruct (write_cache_cases now c b) as [->| ->]; [left; reflexivity | right; eexists; split; reflexivity]).
+  Qed.
+
+  Lemma read_cache_some : forall p now c b,
+    read_cache p now c = Some b -> exists e, c = Some e /\ readable e = true /\ c_body e = b.
+  Proof.
+    unfold read_cache, read_entry. intros p now c b.
+    destruct p; destruct c as [e|]; crush_fetch; intros E; inv E; eauto.
   Qed.
 
   Lemma fetch_shape : forall p now c ex srv o c' n,
     fetch H p now c ex srv = (o, c', n) ->
-    (forall s, o = OContent s -> (exists e, c = Some e /\ c_body e = s) \/ srv = SBody s) /\
-    (c' = c \/ exists b, srv = SBody b /\ c' = write_cache now b).
+    (forall s, o = OContent s ->
+       (exists e, c = Some e /\ readable e = true /\ c_body e = s) \/ srv = SBody s) /\
+    (c' = c \/ exists b, srv = SBody b /\ c' = Some (text_entry now b)).
   Proof.
     unfold fetch. intros p now c ex srv o c' n.
-    assert (Hrc : forall b, read_cache p now c = Some b -> exists e, c = Some e /\ c_body e = b).
-    { unfold read_cache. destruct p; destruct c as [e|]; crush_fetch; intros b E; inv E; eauto. }
     destruct (read_cache p now c) as [body|] eqn:Er.
-    - destruct (Hrc body eq_refl) as [e [-> Hb]].
+    - destruct (read_cache_some _ _ _ _ Er) as [e [-> [Hr Hb]]].
       crush_fetch; intros E;
         first [ apply fetch_net_shape in E; destruct E as [E1 E2]; split; [intros s9 Hs9; right; auto|exact E2]
-              | inv E; split; [ intros s0 E0; first [ discriminate | inv E0; left; eexists; split; [reflexivity | first [exact Hb | reflexivity | congruence]] ] | auto ] ].
+              | inv E; split; [ intros s0 E0; first [ discriminate | inv E0; left; eexists; split; [reflexivity | split; [exact Hr | reflexivity]] ] | auto ] ].
     - crush_fetch; intros E;
         first [ apply fetch_net_shape in E; destruct E as [E1 E2]; split; [intros s9 Hs9; right; auto|exact E2]
               | inv E; split; [ intros s0 E0; discriminate | auto ] ].
   Qed.
 
+  (* the invariant of a history: the entry is still the initial one, or a text file holding a served body *)
+  Definition entry_inv (c0 : cache) (steps : list step) (c : cache) : Prop :=
+    c = c0 \/ exists e, c = Some e /\ readable e = true /\ served c0 steps (c_body e).
+
   Lemma sequence_served_gen : forall steps c0 c outs c',
-    (forall e, c = Some e -> served c0 steps (c_body e)) ->
+    entry_inv c0 steps c ->
     run H steps c = (outs, c') ->
     Forall (fun on => forall s, fst on = OContent s -> served c0 steps s) outs /\
-    (forall e, c' = Some e -> served c0 steps (c_body e)).
+    entry_inv c0 steps c'.
   Proof.
-    intros steps c0. unfold served.
+    intros steps c0.
     assert (G : forall t c outs c',
       (forall st, In st t -> In st steps) ->
-      (forall e, c = Some e -> served c0 steps (c_body e)) ->
+      entry_inv c0 steps c ->
       run H t c = (outs, c') ->
       Forall (fun on => forall s, fst on = OContent s -> served c0 steps s) outs /\
-      (forall e, c' = Some e -> served c0 steps (c_body e))).
+      entry_inv c0 steps c').
     { induction t as [|st t IH]; intros c outs c' Hsub Hc Hrun; cbn in Hrun.
       - inv Hrun. split; auto.
       - unfold run_step in Hrun.
@@ -175,13 +208,15 @@ Section P.
         destruct (run H t c1) as [os c2] eqn:Er. inv Hrun.
         apply fetch_shape in Ef. destruct Ef as [Ho Hc1].
         assert (Hin : In st steps) by (apply Hsub; left; reflexivity).
-        assert (Hc1' : forall e, c1 = Some e -> served c0 steps (c_body e)).
+        assert (Hc1' : entry_inv c0 steps c1).
         { destruct Hc1 as [->|[b [Hs ->]]]; auto.
-          intros e E. unfold write_cache in E. inv E. cbn. right. eauto. }
+          right. eexists. split; [reflexivity|]. split; [reflexivity|]. cbn. right. eauto. }
         destruct (IH c1 os c' (fun s Hs => Hsub s (or_intror Hs)) Hc1' Er) as [Hf Hc'].
         split; auto. constructor; auto. cbn. intros s ->.
-        destruct (Ho s eq_refl) as [[e [-> Hb]]|Hs].
-        + rewrite <- Hb. apply Hc. reflexivity.
+        destruct (Ho s eq_refl) as [[e [-> [Hr Hb]]]|Hs].
+        + destruct Hc as [<-|[e' [E' [_ Hsv]]]].
+          * left. eauto.
+          * inv E'. exact Hsv.
         + right. eauto. }
     intros c outs c' Hc Hrun. eapply G; eauto.
   Qed.
@@ -189,22 +224,28 @@ Section P.
   Lemma sequence_served : forall steps c0 outs c',
     run H steps c0 = (outs, c') ->
     Forall (fun on => forall s, fst on = OContent s -> served c0 steps s) outs /\
-    (forall e, c' = Some e -> served c0 steps (c_body e)).
+    (forall e, c' = Some e -> (readable e = false /\ c' = c0) \/ served c0 steps (c_body e)).
   Proof.
-    intros steps c0 outs c' Hrun. eapply sequence_served_gen; eauto.
-    intros e ->. left. eauto.
+    intros steps c0 outs c' Hrun.
+    destruct (sequence_served_gen steps c0 c0 outs c' (or_introl eq_refl) Hrun) as [Hf Hi].
+    split; auto. intros e ->.
+    destruct Hi as [E|[e' [E' [_ Hsv]]]].
+    - destruct (readable e) eqn:Hr.
+      + right. left. eauto.
+      + left. auto.
+    - inv E'. right. exact Hsv.
   Qed.
 
   (* ---- crashes *)
   Lemma fetch_net_content : forall now c ex srv s c' n,
     fetch_net H now c ex srv = (OContent s, c', n) ->
-    srv = SBody s /\ c' = write_cache now s /\ n = 1.
+    srv = SBody s /\ c' = write_cache now c s /\ n = 1.
   Proof.
     unfold fetch_net. intros now c ex srv s c' n. crush_fetch; intros E; inv E; auto.
   Qed.
 
   Lemma fetch_one_request : forall p now c ex srv s c',
-    fetch H p now c ex srv = (OContent s, c', 1) -> srv = SBody s /\ c' = write_cache now s.
+    fetch H p now c ex srv = (OContent s, c', 1) -> srv = SBody s /\ c' = write_cache now c s.
   Proof.
     unfold fetch. intros p now c ex srv s c'. crush_fetch; intros E;
       first [ apply fetch_net_content in E; destruct E as [E1 [E2 _]]; split; assumption
@@ -213,14 +254,15 @@ Section P.
 
   Lemma crash_state : forall cp p now c ex srv c1,
     fetch_crash H cp p now c ex srv = Some c1 ->
-    c1 = c \/ exists b, srv = SBody b /\ c1 = write_cache now b.
+    c1 = c \/ exists b, srv = SBody b /\ c1 = Some (text_entry now b).
   Proof.
     unfold fetch_crash. intros cp p now c ex srv c1.
     destruct (fetch H p now c ex srv) as [[o c'] n] eqn:Ef.
     destruct o; try discriminate.
     destruct n as [|[q|q|]]; try discriminate. intros E. inv E.
     apply fetch_one_request in Ef. destruct Ef as [Hs _].
-    destruct cp; cbn; auto. right. eauto.
+    destruct cp; cbn; auto.
+    destruct (write_cache_cases now c s) as [->| ->]; auto. right. eauto.
   Qed.
 
   Lemma crash_with_hash_safe : forall cp p now c ex srv c1 p2 now2 h srv2 s c2 n,
@@ -238,14 +280,14 @@ Section P.
   Lemma crash_without_hash : forall cp p now c ex srv c1 p2 now2 ex2 srv2 s c2 n,
     fetch_crash H cp p now c ex srv = Some c1 ->
     fetch H p2 now2 c1 ex2 srv2 = (OContent s, c2, n) ->
-    (exists e, c = Some e /\ c_body e = s) \/ srv = SBody s \/ srv2 = SBody s.
+    (exists e, c = Some e /\ readable e = true /\ c_body e = s) \/ srv = SBody s \/ srv2 = SBody s.
   Proof.
     intros cp p now c ex srv c1 p2 now2 ex2 srv2 s c2 n Hc Hf.
     apply crash_state in Hc. apply fetch_shape in Hf. destruct Hf as [Ho _].
-    destruct (Ho s eq_refl) as [[e [E Hb]]|Hs]; auto.
+    destruct (Ho s eq_refl) as [[e [E [Hr Hb]]]|Hs]; auto.
     destruct Hc as [->|[b [Hs ->]]].
     - left. eauto.
-    - unfold write_cache in E. inv E. cbn. auto.
+    - inv E. cbn. auto.
   Qed.
 
   Lemma plain_write_refuted :
@@ -254,8 +296,8 @@ Section P.
       fetch H Normal (now + 10) c1 None (SFail 1) = (OContent s, c2, 0) /\
       c = None /\ srv <> SBody s.
   Proof.
-    exists PAfterCreate, 1000, None, (SBody [97]), (Some {| c_body := []; c_mtime := 1000 |}), [],
-      (Some {| c_body := []; c_mtime := 1000 |}).
+    exists PAfterCreate, 1000, None, (SBody [97]), (Some {| c_body := []; c_mtime := 1000; c_kind := EText |}), [],
+      (Some {| c_body := []; c_mtime := 1000; c_kind := EText |}).
     repeat split; try reflexivity. discriminate.
   Qed.
 End P.
